@@ -24,7 +24,8 @@ def ucells(am):
     bcc = am.System(atoms=am.Atoms(atype=[1, 1], pos=[[0, 0, 0], [.5, .5, .5]]), box=am.Box.cubic(3.0), scale=True, symbols='Fe')
     b2 = am.System(atoms=am.Atoms(atype=[1, 2], pos=[[0, 0, 0], [.5, .5, .5]]), box=am.Box.cubic(3.0), scale=True, symbols=['Ni', 'Al'])
     hcp = am.System(atoms=am.Atoms(atype=[1, 1], pos=[[1 / 3, 2 / 3, .25], [2 / 3, 1 / 3, .75]]), box=am.Box.hexagonal(3.0, 4.9), scale=True, symbols='Mg')
-    return {'fcc': (fcc, [[0, 0, 0, 1], [2, 2, 0, 1], [2, 0, 2, 1], [0, 2, 2, 1]], 4), 'bcc': (bcc, [[0, 0, 0, 1], [1, 1, 1, 1]], 2),
+    hcp0 = am.System(atoms=am.Atoms(atype=[1, 1], pos=[[0, 0, 0], [1 / 3, 2 / 3, .5]]), box=am.Box.hexagonal(3.0, 4.9), scale=True, symbols='Mg')
+    return {'hcp0': (hcp0, [[0, 0, 0, 1], [2, 4, 3, 1]], 6), 'fcc': (fcc, [[0, 0, 0, 1], [2, 2, 0, 1], [2, 0, 2, 1], [0, 2, 2, 1]], 4), 'bcc': (bcc, [[0, 0, 0, 1], [1, 1, 1, 1]], 2),
             'B2': (b2, [[0, 0, 0, 1], [1, 1, 1, 2]], 2), 'hcp': (hcp, [[4, 8, 3, 1], [8, 4, 9, 1]], 12)}
 
 
@@ -33,6 +34,8 @@ SYSTEMS = [
     ('bcc', [0.5, 0.5, 0.5], [1, 1, 1], [1, -1, 0], 'screw'), ('bcc', [0.5, 0.5, 0.5], [1, 1, -2], [1, -1, 0], 'edge'), ('bcc', [0.5, 0.5, 0.5], [0, 0, 1], [1, -1, 0], 'mixed'),
     ('B2', [1, 0, 0], [0, 0, 1], [0, 1, 0], 'edge'), ('B2', [1, 0, 0], [1, 0, 0], [0, 1, 0], 'screw'),
     ('hcp', [1 / 3, 1 / 3, -2 / 3, 0], [1, 1, -2, 0], [0, 0, 0, 1], 'screw'), ('hcp', [1 / 3, 1 / 3, -2 / 3, 0], [1, -1, 0, 0], [0, 0, 0, 1], 'edge'),
+    # non-basal hcp systems: only with the default m='y', n='z' (line along the a box vector); see DESIGN 6.4
+    ('hcp0', [0, 1, 0], [-2, -1, 2], [1, 0, 1], 'pyrI_a_edge'), ('hcp0', [1, 1, 1], [1, 1, 1], [1, 1, -2], 'pyrII_ca_screw'),
 ]
 MN = [('y', 'z'), ('x', 'y'), ('z', 'x'), ('y', 'x')]
 
@@ -74,12 +77,15 @@ def run(ctx):
     U = ucells(am)
     Cs = {'fcc': am.ElasticConstants(C11=110., C12=60., C44=30.), 'bcc': am.ElasticConstants(C11=240., C12=140., C44=115.),
           'B2': am.ElasticConstants(C11=200., C12=130., C44=110.), 'hcp': am.ElasticConstants(C11=60., C33=62., C12=26., C13=21., C44=17.)}
+    Cs['hcp0'] = Cs['hcp']
     recs = []
     refusals = 0
-    ncfg = 14 if quick else 160
+    ncfg = 24 if quick else 240
     for ci in range(ncfg):
         cname, burgers, xi, hkl, kind = SYSTEMS[ci % len(SYSTEMS)]
         m, n = MN[(ci // len(SYSTEMS)) % len(MN)] if ci >= len(SYSTEMS) else MN[ci % 2]
+        if cname == 'hcp0':
+            m, n = 'y', 'z'
         ucell, basis, dd = U[cname]
         tag = 'c%d:%s:%s:m%sn%s' % (ci, cname, kind, m, n)
         try:
@@ -96,17 +102,50 @@ def run(ctx):
             uv = np.array([[r[0] - r[2], r[1] - r[2], r[3]] for r in uv])
         detuvw = int(round(abs(np.linalg.det(uv))))
         for variant in range(2 if quick else 3):
-            si = int(rng.integers(0, len(d.shifts)))
+            # shift indices: a non-zero one first, then an explicit 0 on the SAME object (the periodic array is generated first)
+            si = [len(d.shifts) - 1, 0, int(rng.integers(0, len(d.shifts)))][variant]
             mults = [int(rng.integers(1, 3)) * 2 for _ in range(3)]
             mults[line] = int(rng.integers(1, 3))
             mults[mot] += 2
-            width = float(rng.choice([0.0, 2.0, 3.5]))
-            shape = ['cylinder', 'box'][(ci + variant) % 2]
+            width = [2.0, 3.5, float(rng.choice([0.0, 2.0, 3.5]))][variant]
+            shape = ['cylinder', 'box', ['cylinder', 'box'][ci % 2]][variant]
             center = np.zeros(3)
             if variant == 1:
                 center[mot] = 0.37
                 center[cut] = -0.21
             vtag = '%s:s%d:%s:w%s:%s' % (tag, si, 'x'.join(map(str, mults)), width, shape)
+            # ---------------- periodic array ------------------------------------------------------------------------------------
+            try:
+                full = d.rcell.supersize(*[(0, mults[i]) if i == line else (-mults[i] // 2, mults[i] // 2) for i in range(3)])
+                base, disl = d.periodicarray(sizemults=list(mults), shiftindex=si, center=center, boundarywidth=width, return_base_system=True)
+                # cell rows in lattice coordinates (x4): (box.vects @ transform) expressed in the unit cell's vectors
+                rows = (np.array([full.box.vects[i] for i in range(3)]) @ d.transform) @ np.linalg.inv(ucell.box.vects)
+                newrows = (disl.box.vects @ d.transform) @ np.linalg.inv(ucell.box.vects)
+                r4, ok1 = to_int(rows * 12, 1, tol=1e-6)
+                n4, ok2 = to_int(newrows * 12, 1, tol=1e-6)
+                if not (ok1 and ok2):
+                    ctx.violation('periodic array cell is not a lattice cell shortened by half a Burgers vector', vtag)
+                nl = am.NeighborList(system=disl, cutoff=0.6)
+                mind = 0.6
+                if nl.coord.max() > 0:
+                    k = int(np.argmax(nl.coord))
+                    mind = float(np.min(disl.dmag(k, nl[k])))
+                pa = (base.atoms.pos - d.shifts[si]) @ d.transform
+                rela = ucell.box.position_cartesian_to_relative(pa) * dd
+                xa, oka = to_int(rela, 1, tol=1e-6)
+                refa = [xa[k] + [int(base.atoms.atype[k])] for k in range(base.natoms)]
+                recs.append({'ev': 'array', 'tag': vtag, 'ref': refa, 'basis': basis, 'dd': dd, 'ongrid': bool(oka), 'rows4': r4, 'newrows4': n4, 'nfull': int(full.natoms), 'oldid': [int(x) for x in disl.atoms.old_id],
+                             'pbc': [bool(x) for x in disl.pbc], 'cut': cut + 1, 'basetype': [int(t) for t in base.atoms.atype],
+                             'fulltype': [int(t) for t in full.atoms.atype], 'mindist': int(round(mind * S)), 'cutoff': int(round(0.5 * S))})
+            except ValueError as e:
+                if 'slip plane' in str(e) or 'not an integer' in str(e) or 'Deleted atom mismatch' in str(e):
+                    refusals += 1
+                else:
+                    ctx.violation('periodicarray raised ValueError (%s)' % str(e)[:40], repr(e)[:200] + ' ' + vtag)
+            except Exception as e:
+                import traceback
+                tb = traceback.extract_tb(e.__traceback__)[-1]
+                ctx.violation('periodicarray raised %s at %s:%s' % (excname(e), tb.filename.split('/')[-1], tb.name), repr(e)[:200] + ' ' + vtag)
             # ---------------- monopole ----------------------------------------------------------------------------------------
             try:
                 base, disl = d.monopole(sizemults=list(mults), shiftindex=si, center=center, boundaryshape=shape, boundarywidth=width, return_base_system=True)
@@ -114,7 +153,7 @@ def run(ctx):
                 res = disl.atoms.pos - base.atoms.pos - u
                 period = np.linalg.norm(base.box.vects[line])
                 # reference crystal in lattice coordinates of the unit cell
-                po = (base.atoms.pos - d.shift) @ d.transform
+                po = (base.atoms.pos - d.shifts[si]) @ d.transform          # the REQUESTED shift, not whatever the object holds
                 rel = ucell.box.position_cartesian_to_relative(po) * dd
                 xi_, ok = to_int(rel, 1, tol=1e-6)
                 ref = [xi_[k] + [int(base.atoms.atype[k])] for k in range(base.natoms)]
@@ -136,8 +175,9 @@ def run(ctx):
                 yv = base.atoms.pos @ d.dislsol.n
                 dpl = np.min(yv[yv > 0]) - np.max(yv[yv < 0])
                 tail = 4 * dpl / (np.pi * L) + 0.02
-                recs.append({'ev': 'disreg', 'tag': vtag + ':monopole', 'total': int(round(np.dot(tot, b) / bn ** 2 * S)), 's': S,
-                             'perp': int(round(np.linalg.norm(tot - np.dot(tot, b) / bn ** 2 * b) / bn * S)), 'tail': int(round(tail * S))})
+                if cname != 'hcp0':      # non-basal hcp: the disregistry clause is not claimed (DESIGN 6.4)
+                  recs.append({'ev': 'disreg', 'tag': vtag + ':monopole', 'total': int(round(np.dot(tot, b) / bn ** 2 * S)), 's': S,
+                               'perp': int(round(np.linalg.norm(tot - np.dot(tot, b) / bn ** 2 * b) / bn * S)), 'tail': int(round(tail * S))})
             except ValueError as e:
                 if 'slip plane' in str(e):
                     refusals += 1
@@ -147,34 +187,6 @@ def run(ctx):
                 import traceback
                 tb = traceback.extract_tb(e.__traceback__)[-1]
                 ctx.violation('monopole raised %s at %s:%s' % (excname(e), tb.filename.split('/')[-1], tb.name), repr(e)[:200] + ' ' + vtag)
-            # ---------------- periodic array ------------------------------------------------------------------------------------
-            try:
-                full = d.rcell.supersize(*[(0, mults[i]) if i == line else (-mults[i] // 2, mults[i] // 2) for i in range(3)])
-                base, disl = d.periodicarray(sizemults=list(mults), shiftindex=si, center=center, boundarywidth=width, return_base_system=True)
-                # cell rows in lattice coordinates (x4): (box.vects @ transform) expressed in the unit cell's vectors
-                rows = (np.array([full.box.vects[i] for i in range(3)]) @ d.transform) @ np.linalg.inv(ucell.box.vects)
-                newrows = (disl.box.vects @ d.transform) @ np.linalg.inv(ucell.box.vects)
-                r4, ok1 = to_int(rows * 12, 1, tol=1e-6)
-                n4, ok2 = to_int(newrows * 12, 1, tol=1e-6)
-                if not (ok1 and ok2):
-                    ctx.violation('periodic array cell is not a lattice cell shortened by half a Burgers vector', vtag)
-                nl = am.NeighborList(system=disl, cutoff=0.6)
-                mind = 0.6
-                if nl.coord.max() > 0:
-                    k = int(np.argmax(nl.coord))
-                    mind = float(np.min(disl.dmag(k, nl[k])))
-                recs.append({'ev': 'array', 'tag': vtag, 'rows4': r4, 'newrows4': n4, 'nfull': int(full.natoms), 'oldid': [int(x) for x in disl.atoms.old_id],
-                             'pbc': [bool(x) for x in disl.pbc], 'cut': cut + 1, 'basetype': [int(t) for t in base.atoms.atype],
-                             'fulltype': [int(t) for t in full.atoms.atype], 'mindist': int(round(mind * S)), 'cutoff': int(round(0.5 * S))})
-            except ValueError as e:
-                if 'slip plane' in str(e) or 'not an integer' in str(e) or 'Deleted atom mismatch' in str(e):
-                    refusals += 1
-                else:
-                    ctx.violation('periodicarray raised ValueError (%s)' % str(e)[:40], repr(e)[:200] + ' ' + vtag)
-            except Exception as e:
-                import traceback
-                tb = traceback.extract_tb(e.__traceback__)[-1]
-                ctx.violation('periodicarray raised %s at %s:%s' % (excname(e), tb.filename.split('/')[-1], tb.name), repr(e)[:200] + ' ' + vtag)
     ctx.extra['documented_refusals_accepted'] = refusals
     for r_ in recs:
         ctx.count()
@@ -201,7 +213,7 @@ def run(ctx):
         rec = b['record']
         t = rec['tag'].split(':')
         short = {k: v for k, v in rec.items() if k not in ('ref', 'res', 'dist', 'retyped', 'dtype', 'btype', 'oldid', 'basetype', 'fulltype')}
-        ctx.violation('%s[%s,%s,%s]: %s' % (rec['ev'], t[1], t[2], t[3], b['clause']), json.dumps(short)[:1200], {'file': b['file'], 'line': b['l']})
+        ctx.violation('%s[%s,%s,%s]: %s' % (rec['ev'], t[1], t[2], t[3], b['clause']), json.dumps(short, default=tlc._np)[:1200], {'file': b['file'], 'line': b['l']})
     for ev in ('array', 'disreg'):
         rr = [r_ for r_ in recs if r_['ev'] == ev]
         if rr:
